@@ -213,6 +213,11 @@ class SubsequenceSearch:
         else:
             distance = dtw.distance
             lb_keogh = dtw.lb_keogh
+            if self.use_lb and self.dists_options.get('psi', None):
+                # LB_Keogh compares every element of the query with the envelope, it is not a
+                # lower bound anymore when elements can be skipped by the psi-relaxation
+                self.use_lb = False
+                logger.warning('The setting use_lb is ignored when psi-relaxation is used.')
         if k is None or self.keep_all_distances:
             self.distances = np.zeros((len(self.s),))
             # if self.use_lb:
